@@ -206,8 +206,8 @@ impl<'a> Gen<'a> {
   /// constructs outside the restricted class (bytecode may refuse them, but must not lie)
   pub fn general(&mut self) {
     let n = self.fresh();
-    let mut pick = self.rng.below(19);
-    if self.rowonly && pick == 17 { pick = 16; }
+    let mut pick = self.rng.below(24);
+    if self.rowonly && (pick == 17 || pick == 21 || pick == 22) { pick = 16; }
     if self.rowonly && (pick == 3 || pick == 14) { pick = 0; }
     let fs = self.vars_of(|v| v.ty == Ty::S("f64"));
     let fm = self.vars_of(|v| matches!(v.ty, Ty::M("f64", _, _)));
@@ -231,10 +231,16 @@ impl<'a> Gen<'a> {
       16 => (format!("{{{}, {}}}", lit_scalar("string", self.rng), lit_scalar("string", self.rng)), Some(Ty::Set), "set-literal-string"),
       17 => (format!("|a<string> b<f64>| {} {} | {} {} |", lit_scalar("string", self.rng), lit_scalar("f64", self.rng), lit_scalar("string", self.rng), lit_scalar("f64", self.rng)), Some(Ty::Tab), "table-literal-string"),
       18 => (format!("({}, {{s: {}}})", lit_scalar("string", self.rng), lit_scalar("string", self.rng)), Some(Ty::Tup), "tuple-record-string"),
+      // containers of rationals / complex numbers / small integers (element kind tags inside set and table constants)
+      19 => (format!("{{{}, {}}}", lit_scalar("r64", self.rng), lit_scalar("r64", self.rng)), Some(Ty::Set), "set-literal-r64"),
+      20 => (format!("{{{}, {}}}", lit_scalar("c64", self.rng), lit_scalar("c64", self.rng)), Some(Ty::Set), "set-literal-c64"),
+      21 => (format!("|a<r64> b<u8>| {} {} | {} {} |", lit_scalar("r64", self.rng), lit_scalar("u8", self.rng), lit_scalar("r64", self.rng), lit_scalar("u8", self.rng)), Some(Ty::Tab), "table-literal-r64"),
+      22 => (format!("|a<c64> b<bool>| {} true | {} false |", lit_scalar("c64", self.rng), lit_scalar("c64", self.rng)), Some(Ty::Tab), "table-literal-c64"),
+      23 => { let k = *self.rng.pick(&["u8", "i64", "bool", "u64"]); (format!("{{{}, {}}}", lit_scalar(k, self.rng), lit_scalar(k, self.rng)), Some(Ty::Set), "set-literal-int") }
       _ => (format!("math/abs(-{})", x), Some(Ty::S("f64")), "call-abs"),
     };
     push!(self, "{} := {}", n, src); self.tag(tag); self.prog.restricted = false;
-    self.last_lit = matches!(tag, "set-literal" | "tuple-literal" | "record-literal" | "table-literal" | "lit-r64" | "lit-c64" | "set-literal-string" | "table-literal-string" | "tuple-record-string");
+    self.last_lit = matches!(tag, "set-literal" | "tuple-literal" | "record-literal" | "table-literal" | "lit-r64" | "lit-c64" | "set-literal-string" | "table-literal-string" | "tuple-record-string" | "set-literal-r64" | "set-literal-c64" | "table-literal-r64" | "table-literal-c64" | "set-literal-int");
     if let Some(t) = ty { self.vars.push(Var { name: n, ty: t, mutable: false }); }
   }
 
@@ -314,7 +320,7 @@ pub fn construct_sweep(rng: &mut Rng) -> Vec<Prog> {
   for _ in 0..40 { let mut g = Gen::new(rng); g.define_scalar_literal("f64"); g.define_scalar_literal("f64"); g.chain(); g.finish(); out.push(g.prog); }
   for _ in 0..30 { let mut g = Gen::new(rng); g.define_scalar_literal("f64"); g.define_scalar_literal("f64"); g.stacked(); g.finish(); out.push(g.prog); }
   for _ in 0..4 { let mut g = Gen::new(rng); g.define_scalar_literal("f64"); g.vars[0].mutable = true; let s = g.prog.stmts[0].clone(); if !s.starts_with('~') { g.prog.stmts[0] = format!("~{}", s); } g.assign(); out.push(g.prog); }
-  for _ in 0..48 { let mut g = Gen::new(rng); g.define_scalar_literal("f64"); g.define_matrix_literal("f64", 2, 2); g.general(); g.finish(); out.push(g.prog); }
+  for _ in 0..120 { let mut g = Gen::new(rng); g.define_scalar_literal("f64"); g.define_matrix_literal("f64", 2, 2); g.general(); g.finish(); out.push(g.prog); }
   for _ in 0..6 { let mut g = Gen::new(rng); g.define_scalar_literal("f64"); g.define_scalar_literal("bool"); g.define_matrix_literal("f64", 1, 3); g.unop(); g.finish(); out.push(g.prog); }
   out
 }
